@@ -141,7 +141,10 @@ func schedBody(w *runner.W) {
 			sub.AddNote("shards_cut_by_deadline", 1)
 		}
 		if st.MaxGoroutines < 2 {
-			r.Failf("harness:vacuous", "scenario never had two goroutines alive")
+			// not an error of anybody: the code may have been restructured so that this scenario
+			// has nothing to interleave any more; the evidence says so
+			sub.AddNote("scenarios_without_concurrency", 1)
+			sub.Incomplete("a scenario never had two goroutines alive at once: nothing to interleave there")
 		}
 	}, runner.Variant("sched"))
 	if sub.Active() {
